@@ -32,18 +32,35 @@ impl StateStorage {
         self.rawdata.resize(size, 0)
     }
     fn get_state(&self, size: u64) -> &[RawVal] {
+        #[cfg(mimium_verif)]
+        crate::verif_hooks::check(
+            self.pos.checked_add(size as usize).is_some_and(|e| e <= self.rawdata.len()),
+            "vm state read",
+        );
         unsafe {
             let head = self.rawdata.as_ptr().add(self.pos);
             slice::from_raw_parts(head, size as _)
         }
     }
     fn get_state_mut(&mut self, size: usize) -> &mut [RawVal] {
+        #[cfg(mimium_verif)]
+        crate::verif_hooks::check(
+            self.pos.checked_add(size).is_some_and(|e| e <= self.rawdata.len()),
+            "vm state write",
+        );
         unsafe {
             let head = self.rawdata.as_mut_ptr().add(self.pos);
             slice::from_raw_parts_mut(head, size as _)
         }
     }
     fn get_as_ringbuffer(&mut self, size_in_samples: u64) -> Ringbuffer<'_> {
+        #[cfg(mimium_verif)]
+        crate::verif_hooks::check(
+            self.pos
+                .checked_add(size_in_samples as usize + 2)
+                .is_some_and(|e| e <= self.rawdata.len()),
+            "vm delay ring buffer",
+        );
         let data_head = unsafe { self.rawdata.as_mut_ptr().add(self.pos) };
         Ringbuffer::new(data_head, size_in_samples)
     }
@@ -51,6 +68,11 @@ impl StateStorage {
         self.pos = (self.pos as u64 + (std::convert::Into::<u64>::into(offset))) as usize;
     }
     fn pop_pos(&mut self, offset: StateOffset) {
+        #[cfg(mimium_verif)]
+        crate::verif_hooks::check(
+            self.pos as u64 >= std::convert::Into::<u64>::into(offset),
+            "vm state cursor underflow",
+        );
         self.pos = (self.pos as u64 - (std::convert::Into::<u64>::into(offset))) as usize;
     }
 }
@@ -354,6 +376,43 @@ where
     }
 }
 
+#[cfg(mimium_verif)]
+impl Machine {
+    /// (words, cursor) of the global (dsp) state storage
+    pub fn verif_global_state(&self) -> (&[RawVal], usize) {
+        (&self.global_states.rawdata, self.global_states.pos)
+    }
+    /// (words, cursor) of a closure's private state storage
+    pub fn verif_closure_state(&self, idx: ClosureIdx) -> Option<(&[RawVal], usize)> {
+        self.closures
+            .get(idx.0)
+            .map(|c| (c.state_storage.rawdata.as_slice(), c.state_storage.pos))
+    }
+    pub fn verif_global_vals(&self) -> &[RawVal] {
+        &self.global_vals
+    }
+    pub fn verif_stack_len(&self) -> usize {
+        self.stack.len()
+    }
+    fn verif_record_state(&mut self, kind: crate::verif_hooks::Kind, size: usize) {
+        let storage = self
+            .states_stack
+            .0
+            .last()
+            .map(|c| c.0.data().as_ffi())
+            .unwrap_or(0);
+        let st = self.get_current_state();
+        crate::verif_hooks::record(crate::verif_hooks::StateAccess {
+            backend: 0,
+            kind,
+            storage,
+            pos: st.pos,
+            size,
+            len: st.rawdata.len(),
+        });
+    }
+}
+
 impl Machine {
     fn try_get_heap_backed_closure(&self, raw: RawVal) -> Option<(heap::HeapIdx, ClosureIdx)> {
         let heap_idx = Self::get_as::<heap::HeapIdx>(raw);
@@ -589,6 +648,8 @@ impl Machine {
         // log::trace!("upper base:{}, upvalue:{}", upper_base, offset);
         let abs_pos = Self::get_upvalue_offset(upper_base, ov);
         let end = abs_pos + size as usize;
+        #[cfg(mimium_verif)]
+        crate::verif_hooks::check(end <= self.stack.len(), "vm open upvalue");
         let slice = unsafe {
             let vstart = self.stack.as_slice().as_ptr().add(abs_pos);
             slice::from_raw_parts(vstart, size as usize)
@@ -596,6 +657,8 @@ impl Machine {
         (abs_pos..end, slice)
     }
     pub fn get_closure(&self, idx: ClosureIdx) -> &Closure {
+        #[cfg(mimium_verif)]
+        crate::verif_hooks::check(self.closures.contains_key(idx.0), "vm closure handle");
         debug_assert!(
             self.closures.contains_key(idx.0),
             "Invalid Closure Id referred"
@@ -603,6 +666,8 @@ impl Machine {
         unsafe { self.closures.get_unchecked(idx.0) }
     }
     pub(crate) fn get_closure_mut(&mut self, idx: ClosureIdx) -> &mut Closure {
+        #[cfg(mimium_verif)]
+        crate::verif_hooks::check(self.closures.contains_key(idx.0), "vm closure handle");
         debug_assert!(
             self.closures.contains_key(idx.0),
             "Invalid Closure Id referred"
@@ -1187,6 +1252,11 @@ impl Machine {
                     };
                 }
                 Instruction::GetGlobal(dst, gid, size) => {
+                    #[cfg(mimium_verif)]
+                    crate::verif_hooks::check(
+                        gid as usize + size as usize <= self.global_vals.len(),
+                        "vm global read",
+                    );
                     let gvs = unsafe {
                         let vstart = self.global_vals.as_ptr().offset(gid as _);
                         debug_assert!(!vstart.is_null());
@@ -1196,6 +1266,11 @@ impl Machine {
                     self.set_stack_range(dst as i64, gvs)
                 }
                 Instruction::SetGlobal(gid, src, size) => {
+                    #[cfg(mimium_verif)]
+                    crate::verif_hooks::check(
+                        gid as usize + size as usize <= self.global_vals.len(),
+                        "vm global write",
+                    );
                     let gvs = unsafe {
                         let vstart = self.global_vals.as_mut_ptr().offset(gid as _);
                         debug_assert!(!vstart.is_null());
@@ -1344,6 +1419,8 @@ impl Machine {
                     buffer.copy_from_slice(&src_words);
                 }
                 Instruction::GetState(dst, size) => {
+                    #[cfg(mimium_verif)]
+                    self.verif_record_state(crate::verif_hooks::Kind::Get, size as usize);
                     //force borrow because state storage and stack never collisions
                     let v: &[RawVal] = unsafe {
                         std::mem::transmute(self.get_current_state().get_state(size as _))
@@ -1351,6 +1428,8 @@ impl Machine {
                     self.set_stack_range(dst as i64, v);
                 }
                 Instruction::SetState(src, size) => {
+                    #[cfg(mimium_verif)]
+                    self.verif_record_state(crate::verif_hooks::Kind::Set, size as usize);
                     let vs = {
                         let (_range, v) = self.get_stack_range(src as i64, size as _);
                         unsafe { std::mem::transmute::<&[RawVal], &[RawVal]>(v) }
@@ -1358,13 +1437,36 @@ impl Machine {
                     let dst = self.get_current_state().get_state_mut(size as _);
                     dst.copy_from_slice(vs);
                 }
+                #[cfg(mimium_verif)]
+                Instruction::PushStatePos(v) => {
+                    self.verif_record_state(
+                        crate::verif_hooks::Kind::Push,
+                        std::convert::Into::<u64>::into(v) as usize,
+                    );
+                    self.get_current_state().push_pos(v)
+                }
+                #[cfg(mimium_verif)]
+                Instruction::PopStatePos(v) => {
+                    self.verif_record_state(
+                        crate::verif_hooks::Kind::Pop,
+                        std::convert::Into::<u64>::into(v) as usize,
+                    );
+                    self.get_current_state().pop_pos(v)
+                }
+                #[cfg(not(mimium_verif))]
                 Instruction::PushStatePos(v) => self.get_current_state().push_pos(v),
+                #[cfg(not(mimium_verif))]
                 Instruction::PopStatePos(v) => self.get_current_state().pop_pos(v),
                 Instruction::Delay(dst, src, time) => {
                     let i = self.get_stack(src as i64);
                     let t = self.get_stack(time as i64);
                     let delaysize_i =
                         unsafe { self.delaysizes_pos_stack.last().unwrap_unchecked() };
+                    #[cfg(mimium_verif)]
+                    crate::verif_hooks::check(
+                        *delaysize_i < self.get_fnproto(func_i).delay_sizes.len(),
+                        "vm delay_sizes index",
+                    );
 
                     let size_in_samples = unsafe {
                         *self
@@ -1372,12 +1474,19 @@ impl Machine {
                             .delay_sizes
                             .get_unchecked(*delaysize_i)
                     };
+                    #[cfg(mimium_verif)]
+                    self.verif_record_state(
+                        crate::verif_hooks::Kind::Delay,
+                        size_in_samples as usize + 2,
+                    );
                     let mut ringbuf = self.get_current_state().get_as_ringbuffer(size_in_samples);
 
                     let res = ringbuf.process(i, t);
                     self.set_stack(dst as i64, res);
                 }
                 Instruction::Mem(dst, src) => {
+                    #[cfg(mimium_verif)]
+                    self.verif_record_state(crate::verif_hooks::Kind::Mem, 1);
                     let s = self.get_stack(src as i64);
                     let ptr = self.get_current_state().get_state_mut(1);
                     let v = Self::to_value(ptr[0]);
